@@ -618,9 +618,13 @@ class GenerativeFunction(Generic[R], Pytree):
         request = Update(
             constraint,
         )
-        tr, w, rd, bwd = request.edit(
+        # `self.edit`, not `request.edit`: the latter dispatches on the trace's generative
+        # function, which is the wrapped function when `self` is a closure or a kwargs wrapper
+        # (and then knows nothing about the stored arguments).
+        tr, w, rd, bwd = self.edit(
             key,
             trace,
+            request,
             argdiffs,
         )
         assert isinstance(bwd, Update), type(bwd)
